@@ -18,7 +18,6 @@ import (
 	"context"
 	"fmt"
 	"io"
-	"reflect"
 	"sync"
 
 	"github.com/google/badwolf/bql/planner/tracer"
@@ -608,10 +607,8 @@ func tripleToRow(t *triple.Triple, cls *semantic.GraphClause) (table.Row, error)
 		if !ok {
 			return true
 		}
-		if reflect.DeepEqual(c, v) {
-			return true
-		}
-		return false
+		// The same value, time anchors compared as instants (as rows are joined).
+		return sameValue(c, v)
 	}
 
 	// Subject related bindings.
